@@ -246,3 +246,66 @@ UNITS += [_dc.replace(u, prop="C03") for u in _C04_UNITS if u.target.endswith("A
 from contracts.check_value_key import check_value_key_unit  # noqa: E402
 UNITS.append(check_value_key_unit("C03"))
 UNITS += [_dc.replace(u, prop="C03") for u in _C04_UNITS if u.target.endswith("_ActionConfigLoad._load_config")]
+
+
+# ------------------------------------------------------------------------------------- parse_env in fault mode; parse_known_args
+from contracts.c04 import pe_setup  # noqa: E402
+UNITS.append(Unit("C03", "jsonargparse._core:ArgumentParser.parse_env", lambda ctx: pe_setup(ctx, faults=True), nothing, only_via_error, label="fault-mode", max_paths=20000, expect_cover=("return", "raise:ArgumentError", "raise:SystemExit")))
+
+
+def pka_setup(ctx):
+    caller = ["jsonargparse", "argcomplete", "user_package", None, "no-module"][ctx.choose(5, "package-of-the-caller")]
+    fate = ["ok", "ArgumentError", "TypeError"][ctx.choose(3, "argparse's-_parse_known_args")]
+    intermixed = ctx.choose(2, "python-has-the-intermixed-keyword") == 1
+    ctx.classes.add("ArgumentError", ["Exception"])
+    open_cms = []
+    ns_in, ns_out = Rec("Namespace in"), Rec("Namespace out")
+    pm = ParserModel(ctx)
+
+    def inner(c, s_, a, k):
+        c.event("argparse._parse_known_args", a[0], a[1], dict(k), list(open_cms))
+        if fate != "ok":
+            raise PyRaise(ExcVal(fate, args=("argument --x: invalid",), origin="argparse"))
+        return (ns_out, ["left"])
+
+    pm.rec.methods["_parse_known_args"] = inner
+    mod = None if caller == "no-module" else Rec("module", attrs={"__package__": caller})
+    frame = Rec("frame")
+    calls = {"inspect.stack": lambda c, a, k: [(Rec("own frame"),), (frame,)], "inspect.getmodule": lambda c, a, k: mod if a[0] is frame else Rec("module", attrs={"__package__": "jsonargparse"}),
+             "argcomplete_namespace": lambda c, a, k: a[2], "str": lambda c, a, k: "text of the error"}
+
+    def cm(name):
+        return (lambda c, a, k: open_cms.append((name, dict(k)) if k else (name, a)), lambda c, t, e: (open_cms.pop(), False)[1])
+
+    cms = {"patch_namespace": cm("patch_namespace"), "parser_context": cm("parser_context"), "ActionTypeHint.subclass_arg_context": cm("subclass_arg_context")}
+    consts = {"_parse_known_has_intermixed": intermixed, "argparse": Rec("argparse", attrs={"ArgumentError": ClassRef("ArgumentError")})}
+    args = ["--x", "1"]
+    return Setup(env={"self": pm.rec, "args": args, "namespace": ns_in}, calls=calls, cms=cms, consts=consts,
+                 data=dict(caller=caller, fate=fate, intermixed=intermixed, ns_in=ns_in, ns_out=ns_out, args=args, open_cms=open_cms, pm=pm))
+
+
+def pka_post(ctx, st, result):
+    d = st.data
+    tag = f"[caller:{d['caller']},{d['fate']}]"
+    ctx.oblige("post", "only-jsonargparse-itself(and argcomplete)-may-call-it:there-is-no-lenient-entry-point-for-users" + tag, d["caller"] in ("jsonargparse", "argcomplete") and d["fate"] == "ok")
+    ev = [e for e in ctx.events if e[0] == "argparse._parse_known_args"]
+    inside = ev[0][4] if ev else []
+    ctx.oblige("post", "argparse-runs-once,on-the-given-argv-and-namespace,with-Namespace-patched,inside-this-parser's-lenient-context" + tag,
+               len(ev) == 1 and ev[0][1] is d["args"] and ev[0][2] is d["ns_in"] and [x[0] for x in inside] == ["patch_namespace", "parser_context", "subclass_arg_context"]
+               and inside[1][1] == {"parent_parser": d["pm"].rec, "lenient_check": True} and ev[0][3] == ({"intermixed": False} if d["intermixed"] else {}))
+    ctx.oblige("post", "returns-argparse's-(namespace, leftover)-and-leaves-no-context-open" + tag, isinstance(result, tuple) and result[0] is d["ns_out"] and result[1] == ["left"] and not d["open_cms"])
+
+
+def pka_raises(ctx, st, exc):
+    d = st.data
+    tag = f"[caller:{d['caller']},{d['fate']}]"
+    if d["caller"] not in ("jsonargparse", "argcomplete"):
+        ctx.oblige("raises", "a-foreign-caller-is-refused-before-anything-is-parsed" + tag, exc.cls == "NotImplementedError" and not [e for e in ctx.events if e[0] == "argparse._parse_known_args"])
+    elif d["fate"] == "ArgumentError":
+        ctx.oblige("raises", "argparse's-ArgumentError-goes-through-self.error" + tag, exc.origin == "self.error" and not d["open_cms"])
+    else:
+        ctx.oblige("raises", f"another-exception-is-left-to-the-callers'-handlers(TypeError is caught by parse_args)(got {exc.cls}@{exc.origin})" + tag, d["fate"] == "TypeError" and exc.cls == "TypeError" and not d["open_cms"])
+
+
+UNITS.append(Unit("C03", "jsonargparse._core:ArgumentParser.parse_known_args", pka_setup, pka_post, pka_raises, max_paths=5000, expect_cover=("return", "raise:NotImplementedError", "raise:ArgumentError"),
+                  trusted=["argparse's _parse_known_args; inspect.stack()[1] is the caller's frame", "patch_namespace / parser_context: their own units"]))
